@@ -135,6 +135,13 @@ class DatasetHistories(Suite):
             view = Graph(store=ds.store, identifier=n)
             if set(view) != exp:
                 return f"view: {where}: Graph(store,{n}) holds {sorted(map(str, view))} expected {sorted(map(str, exp))}"
+            for t in T:
+                for pat in ((t[0], None, t[2]), (t[0], t[1], None), (None, t[1], t[2]), (t[0], None, None),
+                            (None, None, t[2]), (None, t[1], None), t):
+                    e2 = {x for x in exp if match(pat, x)}
+                    if set(view.triples(pat)) != e2:
+                        return (f"view-pattern: {where}: Graph(store,{n}).triples({pat}) = "
+                                f"{sorted(map(str, view.triples(pat)))} expected {sorted(map(str, e2))}")
             if du and n == DID:
                 continue    # with default_union the default graph asked through the dataset is the union
             got_t = set(ds.triples((None, None, None), context=view))
